@@ -161,6 +161,12 @@ def make_gate(seed, kind, dims, dtype):
         P = np.zeros((d0, d0))
         P[0, 0] = 1.0
         M = np.kron(P, g(dr, dr)) + np.kron(np.eye(d0) - P, g(dr, dr))
+    elif kind == "illcond":
+        # product operator plus a 1e-7 perturbation: operator-Schmidt values of relative size ~1e-7 (squared weight 1e-14)
+        M = np.array([[1.0]])
+        for d in dims:
+            M = np.kron(M, g(d, d))
+        M = M + 1e-7 * g(D, D)
     elif kind == "swaplike":
         # (A (x) B ...) followed by a cyclic shift of the sites (a SWAP for two equal sites)
         M = np.array([[1.0]])
@@ -792,6 +798,16 @@ def chain_arrays(cd, op=False, seed_shift=0, sites=None, bonds=None):
     return arrs
 
 
+def operator_intact(op, labels, Om, ofloor, **info):
+    """The operator network handed to a gate call (not flagged in-place) still denotes Om on its own labels."""
+    if not set(labels) <= set(op.outer_inds()):
+        raise Violation("operator-mutated", what="labels", **info)
+    e = rel_err(dense(op, labels), np.asarray(Om).reshape(-1), floor=ofloor)
+    if not e <= TOL:
+        raise Violation("operator-mutated", what="value", err=e, **info)
+    return e
+
+
 def build_mps(cd):
     Q = qtn()
     return Q.MatrixProductState(chain_arrays(cd), shape="lrp", site_ind_id=cd["site_ind_id"], site_tag_id=cd["site_tag_id"],
@@ -854,6 +870,41 @@ def check_class(before_cls, after, **info):
         raise Violation("class-changed", got=type(after).__name__, want=before_cls.__name__, **info)
 
 
+# MPS-form modes (swap+split / nonlocal) always split: besides cutoff=0.0 they are run with a cutoff that is positive (so that
+# the truncating code path is taken) but only discards a relative weight below 1e-24, i.e. changes the state by <= 1e-12
+MPSFORM_CUTOFFS = (0.0, 1e-24)
+
+
+def schmidt_tail(Gm, wd, where, weight=1e-9):
+    """Input class of finding C06-f: along the sorted-site chain some cut of the gate has non-zero operator-Schmidt values
+    whose relative squared weight is below `weight` (10x the hidden default cutoff 1e-10 of the gate -> MPO factorisation)."""
+    k = len(where)
+    if k < 2:
+        return False
+    T = np.asarray(Gm).reshape(list(wd) * 2)
+    srt = sorted(range(k), key=lambda j: where[j])
+    for c in range(1, k):
+        left, right = srt[:c], srt[c:]
+        perm = left + [k + j for j in left] + right + [k + j for j in right]
+        m = np.transpose(T, perm).reshape(int(np.prod([wd[j] for j in left])) ** 2, -1)
+        sv = np.linalg.svd(m, compute_uv=False)
+        if sv[0] == 0:
+            continue
+        tail = np.cumsum((sv ** 2)[::-1])[::-1] / np.sum(sv ** 2)
+        if np.any((sv > 1e-13 * sv[0]) & (tail < weight)):
+            return True
+    return False
+
+
+def flag_leak(e, flags, **info):
+    """TypeError('... unexpected keyword argument 'dagger'') from a compression routine: the flag was not consumed."""
+    msg = str(e)
+    for f in flags:
+        if "unexpected keyword argument" in msg and f"'{f}'" in msg:
+            return Violation("flag-leak", flag=f, **info)
+    return None
+
+
 MPS_MODES = [False, True, "split", "reduce-split", "split-gate", "swap-split-gate", "auto-split-gate", "swap+split", "nonlocal", "auto-mps"]
 LAZY = (False, "split-gate", "swap-split-gate", "auto-split-gate")
 
@@ -880,7 +931,9 @@ def s_mps_gate(draw, tier):
         pre = {"where": draw(s_where(cd, draw(st.sampled_from([1, 2])))), "gseed": draw(A.seeds)}
     return {"chain": cd, "where": where, "gate": draw(s_gate()), "contract": mode, "tags": draw(st.sampled_from([None, "GATE", ["GATE", "G2"]])),
             "propagate_tags": draw(st.sampled_from(["default", "sites", "register", False, True])), "inplace": draw(st.booleans()),
-            "int_where": draw(st.booleans()), "pre": pre, "cutoff": draw(st.sampled_from(LAZY_CUTOFFS))}
+            "int_where": draw(st.booleans()), "pre": pre, "cutoff": draw(st.sampled_from(LAZY_CUTOFFS)),
+            "transpose": draw(st.sampled_from([False, False, True])), "dagger": draw(st.sampled_from([False, False, True])),
+            "scut": draw(st.sampled_from(MPSFORM_CUTOFFS))}
 
 
 def attach_lazy(tn, inds, M, tags):
@@ -932,18 +985,38 @@ def run_mps_gate(case):
     kw = dict(contract=mode, tags=case["tags"])
     if case["propagate_tags"] != "default":
         kw["propagate_tags"] = case["propagate_tags"]
-    if mode in ("split", "reduce-split", "swap+split", "nonlocal", "auto-mps"):
+    if mode in ("split", "reduce-split"):
         kw["cutoff"] = 0.0
+    elif mode in ("swap+split", "nonlocal", "auto-mps"):
+        kw["cutoff"] = case.get("scut", 0.0)
     elif mode in LAZY and mode is not False:
         kw["cutoff"] = case["cutoff"]
+    # transposed / adjoint application: forwarded by gate_TN_1D to whichever routine serves the mode (the generic gate
+    # documents both flags)
+    tr, dg = bool(case.get("transpose")), bool(case.get("dagger"))
+    if tr:
+        kw["transpose"] = True
+    if dg:
+        kw["dagger"] = True
     dom = mps_gate_domain(cd, mode, where)
     if pre and mode in ("split", "reduce-split"):
         dom = "reject" if dom == "reject" else "pre"
     warg = where[0] if (k == 1 and case["int_where"]) else tuple(where)
-    info = dict(entry="MPS.gate", contract=mode_name(mode), k=k, cyclic=cd["cyclic"], pre=bool(pre), default_site_tag=cd["site_tag_id"] == "I{}")
+    # input class of finding C06-e: the flag has to be consumed by gate_with_auto_swap (distant pair) / gate_nonlocal (dagger)
+    via_nonlocal = (mode == "nonlocal" and k >= 2) or (mode == "auto-mps" and k >= 3)
+    via_swap = k == 2 and mode in ("swap+split", "auto-mps") and not adjacent(cd, *where)
+    info = dict(entry="MPS.gate", contract=mode_name(mode), k=k, cyclic=cd["cyclic"], pre=bool(pre), default_site_tag=cd["site_tag_id"] == "I{}",
+                transpose=tr, dagger=dg, unconsumed_flag=bool((via_nonlocal and dg) or (via_swap and (tr or dg))),
+                hidden_gate_truncation=bool(via_nonlocal and schmidt_tail(Gm, [dims[w] for w in where], where)))
 
     def call():
-        r = psi.gate_(Garg, warg, **kw) if case["inplace"] else psi.gate(Garg, warg, **kw)
+        try:
+            r = psi.gate_(Garg, warg, **kw) if case["inplace"] else psi.gate(Garg, warg, **kw)
+        except TypeError as e:
+            v = flag_leak(e, [f for f, on in (("dagger", dg), ("transpose", tr)) if on], **info)
+            if v is None:
+                raise
+            raise v from e
         if case["inplace"] and r is not psi:
             raise Violation("inplace-identity", **info)
         return r
@@ -958,7 +1031,7 @@ def run_mps_gate(case):
     # `tags` is documented as "tag the new gate tensor": the MPS-form modes (swap+split / nonlocal) create no gate tensor and
     # silently ignore it -> only the network's own tags are required there
     gt = [] if (k >= 2 and mode in ("swap+split", "nonlocal", "auto-mps")) else given_tags(case["tags"])
-    e = verify(before, floor, res, order, dims, [(Gm, where)], keep_tags=alltags + gt, **info)
+    e = verify(before, floor, res, order, dims, [(effective(Gm, tr, dg), where)], keep_tags=alltags + gt, **info)
     check_class(cls0, res, **info)
     eff_mode = mode
     if k == 1 and mode in ("split", "reduce-split", "swap+split", "nonlocal", "auto-mps"):
@@ -983,9 +1056,11 @@ def run_mps_gate(case):
             want |= {cd["site_tag_id"].format(w) for w in where}
         if set(new[0].tags) != want:
             raise Violation("gate-tags", got=sorted(new[0].tags), want=sorted(want), propagate=str(pt), **info)
-    return {"nt": k >= 2 or mode not in (False, True), "err": e,
+    return {"nt": k >= 2 or mode not in (False, True) or tr or dg, "err": e,
             "cls": gate_classes(case["gate"], k) + where_classes(cd, where) + ["contract=" + mode_name(mode), "domain=" + dom,
-                                                                                f"ptags={case['propagate_tags']}"] + (["pre-gated"] if pre else [])}
+                                                                                f"ptags={case['propagate_tags']}", f"T={tr}", f"dag={dg}"]
+            + (["pre-gated"] if pre else []) + ([f"{mode_name(mode)}:flagged"] if (tr or dg) else [])
+            + (["scut>0"] if kw.get("cutoff") == MPSFORM_CUTOFFS[1] else [])}
 
 
 # ---------------------------------------------------------------------------
@@ -1046,7 +1121,8 @@ def s_mps_auto_swap(draw, tier):
     cd = draw(s_chain(Lmin=2, Lmax=6))
     return {"chain": cd, "where": draw(s_where(cd, 2)), "gate": draw(s_gate()), "inplace": draw(st.booleans()),
             "swap_back": draw(st.sampled_from([True, True, False])), "orthog": draw(st.sampled_from(["none", "calc", "info", "pre-canon"])),
-            "csite": draw(st.integers(0, 5)), "max_bond": draw(st.sampled_from(["default", None]))}
+            "csite": draw(st.integers(0, 5)), "max_bond": draw(st.sampled_from(["default", None])),
+            "scut": draw(st.sampled_from(MPSFORM_CUTOFFS))}
 
 
 def swap_perm(L, i, j):
@@ -1062,7 +1138,7 @@ def run_mps_auto_swap(case):
     where = list(case["where"])
     order = [cd["site_ind_id"].format(i) for i in range(L)]
     Gm, Garg = build_gate(case["gate"], [dims[w] for w in where])
-    kw = {"cutoff": 0.0, "swap_back": case["swap_back"]}
+    kw = {"cutoff": case.get("scut", 0.0), "swap_back": case["swap_back"]}
     if case["max_bond"] is None:
         kw["max_bond"] = None
     if case["orthog"] == "calc":
@@ -1101,10 +1177,10 @@ NONLOCAL_METHODS = ["direct", "direct", "lazy", "dm", "zipup"]
 def s_mps_nonlocal(draw, tier):
     cd = draw(s_chain(cyclic=False))
     k = draw(st.sampled_from([1, 2, 2, 3, 3, 4]))
-    return {"chain": cd, "where": draw(s_where(cd, k)), "gate": draw(s_gate()), "inplace": draw(st.booleans()),
+    return {"chain": cd, "where": draw(s_where(cd, k)), "gate": draw(s_gate(kinds=GATE_KINDS + ("illcond",))), "inplace": draw(st.booleans()),
             "method": draw(st.sampled_from(NONLOCAL_METHODS)), "transpose": draw(st.booleans()),
             "dims": draw(st.sampled_from(["none", "explicit", "int"])), "orthog": draw(st.sampled_from(["none", "info"])),
-            "sweep_reverse": draw(st.booleans())}
+            "sweep_reverse": draw(st.booleans()), "scut": draw(st.sampled_from(MPSFORM_CUTOFFS))}
 
 
 def run_mps_nonlocal(case):
@@ -1119,10 +1195,12 @@ def run_mps_nonlocal(case):
     method = case["method"]
     kw = {"method": method, "transpose": case["transpose"]}
     if method != "lazy":
-        kw["cutoff"] = 0.0
+        kw["cutoff"] = case.get("scut", 0.0) if method == "direct" else 0.0
         kw["max_bond"] = None
         if case["sweep_reverse"]:
             kw["sweep_reverse"] = True
+    else:
+        kw["cutoff"] = 0.0  # nothing is compressed, but the gate itself is factorised into an MPO: no truncation there either
     if case["dims"] == "explicit":
         kw["dims"] = tuple(wd)
     elif case["dims"] == "int" and len(set(wd)) == 1:
@@ -1132,7 +1210,8 @@ def run_mps_nonlocal(case):
         kw["info"] = info_d
     before, floor = dense(psi, order), magnitude(psi)
     alltags, ntens, cls0 = sorted(psi.tags), psi.num_tensors, type(psi)
-    info = dict(entry="MPS.gate_nonlocal", method=method, k=k, transpose=case["transpose"], default_site_tag=cd["site_tag_id"] == "I{}")
+    info = dict(entry="MPS.gate_nonlocal", method=method, k=k, transpose=case["transpose"], default_site_tag=cd["site_tag_id"] == "I{}",
+                hidden_gate_truncation=schmidt_tail(Gm, wd, where))
     try:
         res = psi.gate_nonlocal_(Garg, tuple(where), **kw) if case["inplace"] else psi.gate_nonlocal(Garg, tuple(where), **kw)
     except AttributeError as e:
@@ -1146,7 +1225,8 @@ def run_mps_nonlocal(case):
     if method != "lazy" and res.num_tensors != ntens:
         raise Violation("tensor-count", got=res.num_tensors, want=ntens, **info)
     return {"nt": k >= 2 or case["transpose"], "err": e,
-            "cls": gate_classes(case["gate"], k) + where_classes(cd, where) + ["method=" + method, f"T={case['transpose']}", "dims=" + case["dims"]]}
+            "cls": gate_classes(case["gate"], k) + where_classes(cd, where) + ["method=" + method, f"T={case['transpose']}", "dims=" + case["dims"]]
+            + (["schmidt-tail"] if info["hidden_gate_truncation"] else [])}
 
 
 # ---------------------------------------------------------------------------
@@ -1163,8 +1243,9 @@ def s_mps_submpo(draw, tier):
     return {"chain": cd, "sites": sites, "obonds": [draw(st.sampled_from([1, 2, 3])) for _ in range(max(k - 1, 1))],
             "entry": "gate_with_mpo" if (full and draw(st.booleans())) else "gate_with_submpo",
             "method": draw(st.sampled_from(NONLOCAL_METHODS)), "transpose": draw(st.booleans()), "inplace": draw(st.booleans()),
-            "where": draw(st.sampled_from(["none", "sites", "range"])), "inplace_mpo": draw(st.booleans()),
-            "op_ids": draw(st.sampled_from([["k{}", "b{}"], ["k{}", "b{}"], ["x{}", "y{}"], ["b{}", "k{}"]]))}
+            "where": draw(st.sampled_from(["none", "sites", "range"])), "inplace_mpo": draw(st.sampled_from([False, False, True])),
+            "op_ids": draw(st.sampled_from([["k{}", "b{}"], ["k{}", "b{}"], ["x{}", "y{}"], ["b{}", "k{}"]])),
+            "reuse": draw(st.booleans())}
 
 
 def run_mps_submpo(case):
@@ -1205,9 +1286,21 @@ def run_mps_submpo(case):
     check_class(cls0, res, **info)
     if method != "lazy" and res.num_tensors != ntens:
         raise Violation("tensor-count", got=res.num_tensors, want=ntens, **info)
+    reused = False
+    if not case["inplace_mpo"]:
+        # inplace_mpo=False: "whether to reindex the operator inplace" -> the caller's operator object is left alone ...
+        e = max(e, operator_intact(mpo, uo + lo, Om, ofloor, **info))
+        if case.get("reuse"):
+            # ... and can therefore be applied again: the second application multiplies by the same operator once more
+            reused = True
+            mid, mfloor = dense(res, order), magnitude(res)
+            res2 = getattr(res, entry + ("_" if case["inplace"] else ""))(mpo, **kw)
+            e = max(e, verify(mid, mfloor * ofloor / max(np.linalg.norm(Om), 1e-300), res2, order, dims,
+                              [(effective(Om, case["transpose"]), sites)], keep_tags=alltags, tol=tol, second=True, **info))
     return {"nt": True, "err": e,
             "cls": ["entry=" + entry, "method=" + method, f"T={case['transpose']}", f"sites={k}", "where=" + case["where"],
-                    "contiguous" if sites == list(range(sites[0], sites[-1] + 1)) else "gaps", "ids=" + up + low]}
+                    "contiguous" if sites == list(range(sites[0], sites[-1] + 1)) else "gaps", "ids=" + up + low,
+                    f"inplace_mpo={case['inplace_mpo']}"] + (["reused"] if reused else [])}
 
 
 # ---------------------------------------------------------------------------
@@ -1918,7 +2011,8 @@ def s_op_lazy(draw, tier):
     aedges = [list(e) for e in draw(G.graph_edges(m, extra=1))] if m > 1 else []
     return {"graph": gd, "target_op": target_op, "entry": entry, "sub": sub, "aedges": aedges,
             "abdims": [draw(st.sampled_from([1, 2, 3])) for _ in aedges], "aseed": draw(A.seeds), "adtype": draw(st.sampled_from(A.DTYPES64)),
-            "flag": draw(st.booleans()), "inplace": draw(st.booleans()), "inplace_op": draw(st.booleans()),
+            "flag": draw(st.booleans()), "inplace": draw(st.booleans()), "inplace_op": draw(st.sampled_from([False, False, True])),
+            "reuse": draw(st.booleans()),
             "aids": draw(st.sampled_from([["k{}", "b{}"], ["x{}", "y{}"], ["b{}", "k{}"]]))}
 
 
@@ -1969,8 +2063,18 @@ def run_op_lazy(case):
     want_n = ntens + Aop.num_tensors * len(actions)
     if res.num_tensors != want_n:
         raise Violation("tensor-count", got=res.num_tensors, want=want_n, **info)
+    reused = False
+    if not (entry == "gate_with_op_lazy" and case["inplace_op"]):
+        # the operator network is only relabelled in place when inplace_op=True is passed: otherwise it survives the call ...
+        e = max(e, operator_intact(Aop, aorder, Am, afloor, **info))
+        if case.get("reuse"):
+            # ... and applying the very same object again multiplies by the same operator(s) once more
+            reused = True
+            mid, mfloor = dense(res, order), magnitude(res)
+            res2 = getattr(res, entry + ("_" if case["inplace"] else ""))(Aop, **kw)
+            e = max(e, verify(mid, mfloor * scale ** len(actions), res2, order, vdims, actions, keep_tags=alltags + ["OP"], second=True, **info))
     return {"nt": True, "err": e, "cls": ["entry=" + entry, f"flag={flag}", "subset" if len(sub) < n else "all-sites", f"opsites={len(sub)}",
-                                          "ids=" + "".join(case["aids"]), "names=" + gd["names"]]}
+                                          "ids=" + "".join(case["aids"]), "names=" + gd["names"]] + (["reused"] if reused else [])}
 
 
 # ---------------------------------------------------------------------------
